@@ -4,10 +4,14 @@ CONSTANTS KINDS, PROJS
 ProjOf(n) == CASE n = "e-" -> 11 [] n = "e+" -> -11 [] n = "nu" -> 12 [] n = "nubar" -> -12
 Points == { [x |-> R(3, 10), y |-> R(1, 2), Q2 |-> RI(20), M |-> R(15, 16), MW2 |-> RI(6400)],
             [x |-> R(1, 10), y |-> R(1, 5), Q2 |-> RI(4), M |-> R(15, 16), MW2 |-> RI(6400)],
-            [x |-> R(9, 10), y |-> R(19, 20), Q2 |-> One, M |-> One, MW2 |-> RI(6400)] }      \* y+ of CHORUS/NuTeV negative here
+            [x |-> R(9, 10), y |-> R(19, 20), Q2 |-> One, M |-> One, MW2 |-> RI(6400)],       \* y+ of CHORUS/NuTeV negative here
+            [x |-> R(1, 2), y |-> One, Q2 |-> RI(9), M |-> R(15, 16), MW2 |-> RI(6400)] }      \* the end of the y range
 ASSUME \A p \in Points, k \in XSKinds : SignRule(k, p) /\ Related(p) /\ DocForm(k, 11, p) /\ DocForm(k, -12, p)
 ASSUME \E p \in Points : RLt(Ypc(p), Zero)
+\* a second request at the SAME (x, Q2) with half the inelasticity, in the same card: the coefficients are functions of y
+Half(p) == [p EXCEPT !.y = RDiv(p.y, RI(2))]
 Obls == {[kind |-> k, proj |-> ProjOf(j), pt |-> p, coeffs |-> Coeffs(k, ProjOf(j), p, FALSE), atom |-> Atom(k),
+          coeffs2 |-> Coeffs(k, ProjOf(j), Half(p), FALSE),
           doc_coeffs |-> Coeffs(k, ProjOf(j), p, TRUE), basis |-> Basis(k)] : k \in KINDS, j \in PROJS, p \in Points}
 ASSUME ndJsonSerialize(IOEnv.OUT, SetToSeq(Obls))
 =============================================================================
